@@ -20,6 +20,11 @@ class FortranCodegenConservative(FortranCodegen):
     the frontends where possible.
     """
 
+    @staticmethod
+    def _is_source_valid(o):
+        source = getattr(o, 'source', None)
+        return bool(source) and source.status == SourceStatus.VALID
+
     def visit_Node(self, o, *args, **kwargs):
         if o.source and o.source.status == SourceStatus.VALID:
             return o.source.string
@@ -78,6 +83,11 @@ class FortranCodegenConservative(FortranCodegen):
 
         if o.source and o.source.status == SourceStatus.INVALID_CHILDREN:
             if o.inline:
+                # The body statement of an inline conditional carries the source string of the
+                # entire line: if it is still valid, so is the line (re-assembling header and
+                # body would duplicate the header)
+                if len(o.body) == 1 and self._is_source_valid(o.body[0]):
+                    return o.source.string
                 # TODO: Deal with inline conditionals properly
                 return super().visit_Conditional(o, *args, **kwargs)
 
@@ -106,6 +116,17 @@ class FortranCodegenConservative(FortranCodegen):
             return self.join_lines(header, body, *else_body)
 
         return super().visit_Conditional(o, *args, **kwargs)
+
+    def visit_MaskedStatement(self, o, *args, **kwargs):
+        if o.source and o.source.status == SourceStatus.VALID:
+            return o.source.string
+
+        if o.inline and o.source and o.source.status == SourceStatus.INVALID_CHILDREN:
+            # As for inline conditionals: the body statement shares the source line
+            if len(o.bodies) == 1 and len(o.bodies[0]) == 1 and self._is_source_valid(o.bodies[0][0]):
+                return o.source.string
+
+        return super().visit_MaskedStatement(o, *args, **kwargs)
 
     def visit_VariableDeclaration(self, o, *args, **kwargs):
         if o.source and o.source.status == SourceStatus.VALID:
